@@ -65,6 +65,10 @@ def build_atoms(spec: dict) -> Atoms:
             from quansino.constraints import FixRot
 
             cons.append(FixRot())
+        elif c["type"] == "Hookean":
+            from ase.constraints import Hookean
+
+            cons.append(Hookean(a1=int(c["a1"]), a2=tuple(c["point"]), k=float(c["k"]), rt=float(c["rt"])))
     if cons:
         atoms.set_constraint(cons)
     return atoms
@@ -783,6 +787,15 @@ class World:
                 # the user rescales the box (atoms follow) - pre-compression, or the real cell set after construction
                 self.atoms.set_cell(np.asarray(self.atoms.cell.array) * float(ed["cell_scale"]), scale_atoms=True)
                 self.result.count("fault.user_rescales_cell")
+            if ed.get("reassign_outputs") and self.disk is not None:
+                # the user hands the same, still open, file objects to the simulation again (e.g. after changing the
+                # logging interval): the observers are rebuilt on files the old observers were writing to
+                attr = {"trajectory": "default_trajectory", "restart_file": "default_restart"}
+                for role in ed["reassign_outputs"]:
+                    fs = self.sc.get("files", {}).get(role)
+                    if role in attr and isinstance(fs, dict) and fs.get("as") == "object" and fs["name"] in self.disk.files:
+                        setattr(self.mc, attr[role], self.disk.files[fs["name"]])
+                        self.result.count("fault.outputs_reassigned_on_open_files")
             if ed.get("relabel"):
                 # the user reconfigures the elementary moves HE built (the objects he holds) after composing them
                 rl = ed["relabel"]
@@ -802,6 +815,9 @@ class World:
             self.result.count("fault.user_edit_between_runs")
             for m in self.monitors:
                 m.on_user_edit(self, ed)
+            cb = self.opts.get("on_user_edit_cb")
+            if cb is not None:
+                cb(self, ed)
 
     def _escaped(self, exc, phase):
         info = classify_exception(exc)
